@@ -159,7 +159,8 @@ class FunctionTranslator:
         self.cls = cls
         self.vars = {}          # local name -> var id
         self.nvars = 1          # 0 is RET
-        self.nested = {}        # nested function name -> FunctionDef / Lambda
+        self.nested = {}        # scoped key of a nested function name -> FunctionDef
+        self.nested_scopes = {}
         self.inlining = []      # stack of nested functions being inlined (recursion guard)
         self.ret_stack = [0]
 
@@ -184,6 +185,15 @@ class FunctionTranslator:
             if name in sc:
                 return self.var(sc[name])
         return None
+
+    def lvar(self, name, node):
+        v = self.lookup(name)
+        if v is None:
+            self.refuse(node, f'binding of non-local name {name}')
+        return v
+
+    def all_scope_vars(self):
+        return sorted({self.var(k) for sc in self.scopes for k in sc.values()})
 
     def nested_of(self, name):
         for sc in reversed(self.scopes):
@@ -389,8 +399,16 @@ class FunctionTranslator:
 
     def comprehension(self, gens, elts, out):
         inner = []
+        # the first iterable is evaluated in the enclosing scope
+        first = self.names(gens[0].iter, out)
+        tnames = set()
         for g in gens:
-            vs = self.names(g.iter, inner)
+            for sub in ast.walk(g.target):
+                if isinstance(sub, ast.Name):
+                    tnames.add(sub.id)
+        self.push_scope(tnames)
+        for i, g in enumerate(gens):
+            vs = first if i == 0 else self.names(g.iter, inner)
             self.assign(g.target, vs, inner, g.iter)
             for c in g.ifs:
                 self.names(c, inner)
@@ -399,6 +417,7 @@ class FunctionTranslator:
             r += self.names(el, inner)
         t = self.tmp()
         self.op_move(inner, t, r + [t])
+        self.pop_scope()
         out.append(Star(Part(Seq(inner))))
         return [t]
 
@@ -486,7 +505,7 @@ class FunctionTranslator:
                     self.op_copy(out, obj, [])
                     init = self.world.method_of(tgt, '__init__')
                     if init is not None:
-                        self.emit_call(init, [[obj]] + pos, kws, star, out, e)
+                        self.emit_call(init, pos, kws, star, out, e, recv=[obj])
                     r = self.run_callables(callables, allv, out, e)
                     return [obj] + allv + r
             if f.id in BUILTIN_FRESH:
@@ -522,13 +541,13 @@ class FunctionTranslator:
                 if m is not None:
                     recv = self.names(f.value, out)
                     pos, kws, star, callables = self.call_args(e, out)
-                    return self.emit_call(m, [recv] + pos, kws, star, out, e)
+                    return self.emit_call(m, pos, kws, star, out, e, recv=recv)
             if (isinstance(f.value, ast.Call) and isinstance(f.value.func, ast.Name) and f.value.func.id == 'super'
                     and self.cls):
                 m = self.world.method_of(self.cls, f.attr, skip_own=True)
                 pos, kws, star, callables = self.call_args(e, out)
                 if m is not None:
-                    return self.emit_call(m, [[self.var('self')]] + pos, kws, star, out, e)
+                    return self.emit_call(m, pos, kws, star, out, e, recv=[self.lookup('self')])
                 return []
             # global (non-local) name as receiver: pharmpy class / module function, e.g. Expr.symbol(..)
             if isinstance(root, ast.Name) and self.lookup(root.id) is None:
@@ -536,7 +555,7 @@ class FunctionTranslator:
                 allv = [v for p in pos for v in p] + [v for p in kws.values() for v in p] + star
                 target = self.world.resolve_attr(self.module, root.id, f)
                 if target is not None:
-                    return self.emit_call(target, pos, kws, star, out, e) + self.run_callables(callables, allv, out, e)
+                    return self.emit_call(target, pos, kws, star, out, e, via_class=True) + self.run_callables(callables, allv, out, e)
                 self.op_write(out, False, allv, e, f'call of unanalysed {ast.unparse(f)}(...)')
                 return allv + self.run_callables(callables, allv, out, e)
             # method call on an object
@@ -567,7 +586,7 @@ class FunctionTranslator:
                 return recv + allv + r
             m = self.world.unique_method(meth)
             if m is not None:
-                return self.emit_call(m, [recv] + pos, kws, star, out, e) + self.run_callables(callables, recv + allv, out, e)
+                return self.emit_call(m, pos, kws, star, out, e, recv=recv) + self.run_callables(callables, recv + allv, out, e)
             # unknown method: may mutate the receiver and the arguments (fail closed, indefinite)
             self.op_write(out, False, recv + allv, e, f'unknown method .{meth}(...)')
             r = self.run_callables(callables, recv + allv, out, e)
@@ -579,8 +598,17 @@ class FunctionTranslator:
         self.op_write(out, False, fn_names + allv, e, f'call of local callable {ast.unparse(f)[:40]}')
         return fn_names + allv + self.run_callables(callables, fn_names + allv, out, e)
 
-    def emit_call(self, target, pos, kws, star, out, node):
-        """Call of an analysed function; maps arguments to parameter positions."""
+    def emit_call(self, target, pos, kws, star, out, node, recv=None, via_class=False):
+        """Call of an analysed function; maps arguments to parameter positions.
+        recv: names of the receiver for a bound call obj.m(..); via_class: Class.m(..)"""
+        kind = self.world.kind(target)
+        if recv is not None:
+            if kind in ('method', 'function'):
+                pos = [recv] + pos
+            elif kind == 'class':
+                pos = [[]] + pos
+        elif via_class and kind == 'class':
+            pos = [[]] + pos
         info = self.world.signature(target)
         params, has_var, has_kw = info
         args = [[] for _ in params]
@@ -603,13 +631,10 @@ class FunctionTranslator:
         out.append(f"(Op (Call {r} {fid} [{';'.join(vl(sorted(set(a))) for a in args)}]))")
         return [r]
 
-    # ---- nested functions and lambdas (inlined)
+    # ---- nested functions and lambdas (inlined, in their own naming scope)
     def bind_params(self, fnargs, actual, bound, out, node):
-        names_ = [a.arg for a in fnargs.posonlyargs + fnargs.args + fnargs.kwonlyargs]
-        if fnargs.vararg:
-            names_.append(fnargs.vararg.arg)
-        if fnargs.kwarg:
-            names_.append(fnargs.kwarg.arg)
+        """must be called AFTER push_scope of the callee scope; `actual`/`bound` were evaluated before"""
+        names_ = self.arg_names(fnargs)
         if actual is not None:
             pos, kws, star = actual
             everything = [v for p in pos for v in p] + [v for p in kws.values() for v in p] + star
@@ -621,36 +646,45 @@ class FunctionTranslator:
                     vs += kws[n]
                 if (fnargs.vararg and n == fnargs.vararg.arg) or (fnargs.kwarg and n == fnargs.kwarg.arg):
                     vs = everything
-                self.op_move(out, self.var(n), vs)
+                self.op_move(out, self.lvar(n, node), vs)
         else:
-            if bound is None:
-                bound = [self.var(n) for n in sorted(self.locals) if n not in names_]
             for n in names_:
-                self.op_move(out, self.var(n), bound)
-        for d in list(fnargs.defaults) + [d for d in fnargs.kw_defaults if d is not None]:
-            self.names(d, out)
+                self.op_move(out, self.lvar(n, node), bound)
 
     def inline_lambda(self, lam, bound, out):
+        if bound is None:
+            bound = self.all_scope_vars()
         inner = []
+        for d in list(lam.args.defaults) + [d for d in lam.args.kw_defaults if d is not None]:
+            self.names(d, out)
+        self.push_scope(self.own_bindings([], lam.args))
         self.bind_params(lam.args, None, bound, inner, lam)
         r = self.names(lam.body, inner)
+        self.pop_scope()
         t = self.tmp()
         self.op_move(inner, t, r + [t])
         out.append(Star(Part(Seq(inner))))
         return [t]
 
     def inline_nested(self, name, actual, out, node, as_value=False, bound=None):
-        fn = self.nested[name]
-        if name in self.inlining:
+        fn = self.nested_of(name)
+        if fn in self.inlining:
             self.refuse(node, f'recursive nested function {name}')
-        self.inlining.append(name)
+        if actual is None and bound is None:
+            bound = self.all_scope_vars()
+        self.inlining.append(fn)
         inner = []
+        # the nested function sees the scopes that were active where it was DEFINED
+        saved = self.scopes
+        self.scopes = list(self.nested_scopes[id(fn)])
+        self.push_scope(self.own_bindings(fn.body, fn.args))
         self.bind_params(fn.args, actual, bound, inner, node)
         rv = self.tmp()
         self.op_move(inner, rv, [])
         self.ret_stack.append(rv)
         inner.append(self.block(fn.body))
         self.ret_stack.pop()
+        self.scopes = saved
         self.inlining.pop()
         if as_value:
             out.append(Star(Part(Seq(inner))))
@@ -661,7 +695,7 @@ class FunctionTranslator:
     # ---- assignment targets
     def assign(self, t, vs, out, node):
         if isinstance(t, ast.Name):
-            self.op_move(out, self.var(t.id), vs)
+            self.op_move(out, self.lvar(t.id, t), vs)
         elif isinstance(t, (ast.Tuple, ast.List)):
             for el in t.elts:
                 self.assign(el, vs, out, node)
@@ -714,8 +748,8 @@ class FunctionTranslator:
         t = s.target
         if isinstance(t, ast.Name):
             # `x += v` mutates x in place when x is a DataFrame / list / ndarray, rebinds otherwise
-            self.op_write(out, False, [self.var(t.id)], s, f'augmented assignment to {t.id}')
-            self.op_move(out, self.var(t.id), [self.var(t.id)] + vs)
+            self.op_write(out, False, [self.lvar(t.id, t)], s, f'augmented assignment to {t.id}')
+            self.op_move(out, self.lvar(t.id, t), [self.lvar(t.id, t)] + vs)
         else:
             base = self.names(t.value, out)
             if isinstance(t, ast.Subscript):
@@ -729,7 +763,7 @@ class FunctionTranslator:
         out = []
         for t in s.targets:
             if isinstance(t, ast.Name):
-                self.op_move(out, self.var(t.id), [])
+                self.op_move(out, self.lvar(t.id, t), [])
             elif isinstance(t, (ast.Subscript, ast.Attribute)):
                 base = self.names(t.value, out)
                 self.op_write(out, True, base, s, 'del ' + ast.unparse(t)[:60])
@@ -753,7 +787,7 @@ class FunctionTranslator:
     def s_Import(self, s):
         out = []
         for al in s.names:
-            self.op_move(out, self.var((al.asname or al.name).split('.')[0]), [])
+            self.op_move(out, self.lvar((al.asname or al.name).split('.')[0], s), [])
         return Seq(out)
 
     s_ImportFrom = s_Import
@@ -811,7 +845,7 @@ class FunctionTranslator:
             o = []
             self.names(h.type, o)
             if h.name:
-                self.op_move(o, self.var(h.name), [])
+                self.op_move(o, self.lvar(h.name, h), [])
             o.append(self.block(h.body))
             hs.append(Part(Seq(o)))
         return Seq([Part(self.block(s.body)), Alt(hs), self.block(s.finalbody)])
@@ -819,9 +853,17 @@ class FunctionTranslator:
     s_TryStar = s_Try
 
     def s_FunctionDef(self, s):
-        if s.name in self.nested:
+        key = None
+        for sc in reversed(self.scopes):
+            if s.name in sc:
+                key = sc[s.name]
+                break
+        if key is None:
+            self.refuse(s, f'nested function {s.name} not bound')
+        if key in self.nested:
             self.refuse(s, f'nested function {s.name} defined twice')
-        self.nested[s.name] = s
+        self.nested[key] = s
+        self.nested_scopes[id(s)] = list(self.scopes)
         out = []
         for d in s.decorator_list:
             self.names(d, out)
@@ -841,9 +883,9 @@ class FunctionTranslator:
             for sub in ast.walk(c.pattern):
                 n = getattr(sub, 'name', None)
                 if isinstance(sub, (ast.MatchAs, ast.MatchStar)) and n:
-                    self.op_move(o, self.var(n), vs)
+                    self.op_move(o, self.lvar(n, sub), vs)
                 if isinstance(sub, ast.MatchMapping) and sub.rest:
-                    self.op_move(o, self.var(sub.rest), vs)
+                    self.op_move(o, self.lvar(sub.rest, sub), vs)
                 if isinstance(sub, ast.MatchValue):
                     self.names(sub.value, o)
             self.names(c.guard, o)
@@ -939,10 +981,11 @@ class World:
             return self.resolve(tmod, tname, depth + 1)
         if tmod in ('pharmpy.modeling', 'pharmpy.model'):
             # re-exported from the package: find the unique definition
-            cands = [k for k in self.funcs if k[1] == tname and (k[0].startswith('pharmpy.modeling') or tmod == 'pharmpy.model')]
+            pref = 'pharmpy.modeling.' if tmod == 'pharmpy.modeling' else 'pharmpy.model.model'
+            cands = [k for k in self.funcs if k[1] == tname and k[0].startswith(pref)]
             if len(cands) == 1:
                 return ('func', cands[0])
-            cands = [k for k in self.classes if k[1] == tname]
+            cands = [k for k in self.classes if k[1] == tname and k[0].startswith(pref)]
             if len(cands) == 1:
                 return ('class', cands[0])
         return None
@@ -979,6 +1022,17 @@ class World:
         node, cls = self.funcs[key]
         a = node.args
         return ([x.arg for x in a.posonlyargs + a.args + a.kwonlyargs], a.vararg is not None, a.kwarg is not None)
+
+    def kind(self, key):
+        node, cls = self.funcs[key]
+        if cls is None:
+            return 'function'
+        decos = {d.id for d in node.decorator_list if isinstance(d, ast.Name)}
+        if 'staticmethod' in decos:
+            return 'static'
+        if 'classmethod' in decos:
+            return 'class'
+        return 'method'
 
     def fid(self, key):
         return self.order.index(key) if not hasattr(self, '_fid') else self._fid[key]
@@ -1029,16 +1083,16 @@ def generate(repo_src, extra_sources=None):
             for mname, mkey in world.classes[key]['methods'].items():
                 pubs.append((f'{name}.{mname}', world._fid[mkey]))
     lines = ['(* GENERATED by harness/props/c06_effects.py from the current pharmpy source — do not edit *)',
-             'From Coq Require Import List Bool Arith.', 'From PV Require Import C06.Model.', 'Import ListNotations.',
-             'Local Open Scope nat_scope.', '']
+             'From Coq Require Import List Bool Arith NArith.', 'From PV Require Import C06.Model.', 'Import ListNotations.',
+             'Local Open Scope N_scope.', '']
     for i, f in enumerate(fns):
         lines.append(f"(* {i}: {f['module']}:{f['qualname']} line {f['line']} params {f['params']} *)")
         lines.append(f"Definition body_{i} : prog := {f['body']}.")
     lines.append('')
     lines.append('Definition effect_programs : list fdef := [')
-    lines.append(';\n'.join(f"  mkfdef {f['arity']} body_{i}" for i, f in enumerate(fns)))
+    lines.append(';\n'.join(f"  mkfdef {f['arity']}%nat body_{i}" for i, f in enumerate(fns)))
     lines.append('].')
-    lines.append('Definition public_functions : list nat := ' + vl([i for _, i in pubs]) + '.')
+    lines.append('Definition public_functions : list N := ' + vl([i for _, i in pubs]) + '.')
     meta = {
         'functions': [{'id': i, 'module': f['module'], 'qualname': f['qualname'], 'line': f['line'],
                        'params': f['params'], 'arity': f['arity']} for i, f in enumerate(fns)],
